@@ -278,6 +278,11 @@ impl<'a> Gen<'a> {
     pub fn satisfiable(&self, q: QRef) -> bool {
         let (b, chain) = self.effective_facets(q);
         let f = Self::merged(&chain);
+        // two different length facets along the chain leave nothing
+        let lengths: std::collections::BTreeSet<_> = chain.iter().filter_map(|c| c.length).collect();
+        if lengths.len() > 1 {
+            return false;
+        }
         // enumerations along the chain that have no value in common leave nothing
         if f.enumeration.is_empty() && chain.iter().any(|c| !c.enumeration.is_empty()) {
             return false;
